@@ -18,7 +18,7 @@ PID = 'C15'
 
 TYPES = ['workflow_definition', 'workbook', 'action_definition', 'workflow_execution', 'task_execution', 'action_execution',
          'environment', 'cron_trigger', 'event_trigger', 'code_source', 'dynamic_action_definition']
-OPS = ['get', 'get_by_name', 'list', 'update', 'delete', 'create_as_other']
+OPS = ['get', 'get_by_name', 'load', 'list', 'update', 'delete', 'create_as_other']
 WF_TEXT = "version: '2.0'\nwfx:\n  tasks:\n    t:\n      action: std.noop\n"
 
 
@@ -86,6 +86,18 @@ def _adapters(db_api):
         get=lambda row: db_api.get_dynamic_action_definition(row['id']), get_by_name=lambda row: db_api.get_dynamic_action_definition(row['name']),
         list=lambda: db_api.get_dynamic_action_definitions(), update=lambda row: db_api.update_dynamic_action_definition(row['id'], {'class_name': 'C#x'}),
         delete=lambda row: db_api.delete_dynamic_action_definition(row['id']), table='dynamic_action_definitions', field='class_name')
+    # the load_* functions (None instead of an exception when nothing is found): used by the engine AND by REST controllers
+    A['workflow_definition']['load'] = lambda row: db_api.load_workflow_definition(row['name'], '')
+    A['workbook']['load'] = lambda row: db_api.load_workbook(row['name'], '')
+    A['action_definition']['load'] = lambda row: db_api.load_action_definition(row['name'])
+    A['workflow_execution']['load'] = lambda row: db_api.load_workflow_execution(row['id'])
+    A['task_execution']['load'] = lambda row: db_api.load_task_execution(row['id'])
+    A['action_execution']['load'] = lambda row: db_api.load_action_execution(row['id'])
+    A['environment']['load'] = lambda row: db_api.load_environment(row['name'])
+    A['cron_trigger']['load'] = lambda row: db_api.load_cron_trigger(row['name'])
+    A['event_trigger']['load'] = lambda row: db_api.load_event_trigger(row['id'])
+    A['code_source']['load'] = lambda row: db_api.load_code_source(row['id'])
+    A['dynamic_action_definition']['load'] = lambda row: db_api.load_dynamic_action_definition(row['id'])
     return A
 
 
@@ -146,7 +158,7 @@ def run_cases():
             outcome = 'none'
             try:
                 with db_api.transaction():
-                    if op in ('get', 'get_by_name'):
+                    if op in ('get', 'get_by_name', 'load'):
                         r = ad[op](rowd)
                         outcome = 'found' if (r is not None and r.id == rid) else 'notfound'
                     elif op == 'list':
